@@ -14,6 +14,8 @@
 (*  tclose       close() was called on transport i                         *)
 (*  close        the user calls ConnectionManager.close()                  *)
 (*  returned     connect_loop() returned                                   *)
+(*  start        connect_loop() is called again on the same manager (the   *)
+(*               first run starts implicitly at time 0)                    *)
 (*  end          quiescence, long after the return (tasks still pending)   *)
 (*                                                                         *)
 (* Clauses (names are what a rejected trace reports):                      *)
@@ -28,7 +30,8 @@
 (*                              comes (within the pacing upper bound)      *)
 (*  C17.too_many_tasks          pending tasks <= TaskBound, always         *)
 (*  C17.transport_left_open     after close() every transport obtained is  *)
-(*                              closed                                     *)
+(*                              closed (checked at quiescence and when a   *)
+(*                              new run starts)                            *)
 (*  C18.attempt_too_early       attempt >= failure + min(2^(n-1), max)     *)
 (*                              resp. >= 2nd quick loss + breaker sleep    *)
 (*  C18.attempt_too_late        attempt <= trigger + max(back-off, sleep)  *)
@@ -38,8 +41,11 @@ EXTENDS BackOff, Sequences, SequencesExt, FiniteSets
 TaskBound == 8
 Slack == 500
 
-S0 == [live |-> {}, pend |-> -1, closeT |-> -1, nfail |-> 0, trigT |-> -1, trigKind |-> "none",
-       lossT |-> -1, prevLossT |-> -1, bad |-> <<>>, n |-> 0]
+S0 == [live |-> {}, pend |-> -1, closeT |-> -1, nfail |-> 0, trigT |-> -1, upT |-> 0, trigKind |-> "none",
+       lossT |-> -1, prevLossT |-> -1, running |-> TRUE, pendingClose |-> FALSE, bad |-> <<>>, n |-> 0]
+\* trigT = time of the failure / loss the lower pacing bound counts from; upT = time the upper bound counts from (the
+\* later of that and the start of the current connect_loop() run); running = a connect_loop() run is in progress;
+\* pendingClose = close() was called while no run was in progress (it makes the next run return at once)
 Fail(s, c) == [s EXCEPT !.bad = Append(s.bad, [c |-> c, at |-> s.n])]
 When(cond, s, c) == IF cond THEN Fail(s, c) ELSE s
 
@@ -48,8 +54,8 @@ TwoQuickLosses(cfg, s) == s.prevLossT >= 0 /\ s.lossT - s.prevLossT < 1000 * cfg
 Lower(cfg, s) == IF s.trigKind = "fail" THEN s.trigT + DelayMs(cfg, s.nfail)
                  ELSE IF s.trigKind = "loss" /\ TwoQuickLosses(cfg, s) THEN s.trigT + 1000 * cfg.sleep
                  ELSE 0
-Upper(cfg, s) == IF s.trigKind = "none" THEN Slack
-                 ELSE s.trigT + MaxI(DelayMs(cfg, s.nfail), 1000 * cfg.sleep) + Slack
+Upper(cfg, s) == IF s.trigKind = "none" THEN s.upT + Slack
+                 ELSE s.upT + MaxI(DelayMs(cfg, s.nfail), 1000 * cfg.sleep) + Slack
 
 OnEvent(cfg, s0, e) ==
   LET s == [s0 EXCEPT !.n = s0.n + 1] IN
@@ -64,17 +70,26 @@ OnEvent(cfg, s0, e) ==
      IF e.cancelled THEN [s EXCEPT !.pend = -1]
      ELSE IF e.ok THEN LET s1 == [s EXCEPT !.pend = -1, !.live = s.live \cup {e.i}, !.nfail = 0, !.trigKind = "connected"] IN
                        When(Cardinality(s1.live) > 1, s1, "C17.two_live")
-     ELSE [s EXCEPT !.pend = -1, !.nfail = s.nfail + 1, !.trigT = e.t, !.trigKind = "fail"]
+     ELSE [s EXCEPT !.pend = -1, !.nfail = s.nfail + 1, !.trigT = e.t, !.upT = e.t, !.trigKind = "fail"]
   ELSE IF e.e = "lost" THEN
-     [s EXCEPT !.live = s.live \ {e.i}, !.prevLossT = s.lossT, !.lossT = e.t, !.trigT = e.t,
+     [s EXCEPT !.live = s.live \ {e.i}, !.prevLossT = s.lossT, !.lossT = e.t, !.trigT = e.t, !.upT = e.t,
                !.trigKind = IF s.closeT >= 0 THEN s.trigKind ELSE "loss"]
   ELSE IF e.e = "tclose" THEN [s EXCEPT !.live = s.live \ {e.i}]
   ELSE IF e.e = "close" THEN
-     LET s1 == [s EXCEPT !.closeT = IF s.closeT >= 0 THEN s.closeT ELSE e.t] IN
-     When(s.closeT < 0 /\ s.trigKind \in {"fail", "loss"} /\ e.t > Upper(cfg, s), s1, "C17.no_reconnect")
+     IF ~s.running THEN [s EXCEPT !.pendingClose = TRUE]          \* close() between two runs: takes effect when the next run starts
+     ELSE LET s1 == [s EXCEPT !.closeT = IF s.closeT >= 0 THEN s.closeT ELSE e.t] IN
+          When(s.closeT < 0 /\ s.trigKind \in {"fail", "loss"} /\ e.t > Upper(cfg, s), s1, "C17.no_reconnect")
   ELSE IF e.e = "returned" THEN
-     IF s.closeT < 0 THEN Fail(s, "C17.returned_without_close")
-     ELSE When(e.t # s.closeT, s, "C17.return_not_prompt")
+     LET s1 == [s EXCEPT !.running = FALSE] IN
+     IF s.closeT < 0 THEN Fail(s1, "C17.returned_without_close")
+     ELSE When(e.t # s.closeT, s1, "C17.return_not_prompt")
+  ELSE IF e.e = "start" THEN                                     \* connect_loop() is called again on the same manager
+     LET c1 == When(s.running, s, "C17.start_while_running")
+         c2 == When(s.live # {}, c1, "C17.transport_left_open")
+     \* the statement says nothing about pacing across a close()/restart: no lower bound for the first attempt of the new run
+     \* (loss history forgotten), the upper bound counts from the start and still allows a remembered back-off or breaker sleep
+     IN [c2 EXCEPT !.running = TRUE, !.closeT = IF s.pendingClose THEN e.t ELSE -1, !.pendingClose = FALSE, !.pend = -1, !.upT = e.t,
+                   !.trigKind = "restart", !.lossT = -1, !.prevLossT = -1]
   ELSE IF e.e = "end" THEN
      LET c1 == When(s.live # {}, s, "C17.transport_left_open")
          c2 == When(e.tasks > TaskBound, c1, "C17.too_many_tasks")
